@@ -13,6 +13,7 @@ root, confirm = sys.argv[1], json.load(open(sys.argv[2]))
 matrix = json.load(open(sys.argv[3])) if len(sys.argv) > 3 and os.path.exists(sys.argv[3]) else {}
 PREFIX = sys.argv[4] if len(sys.argv) > 4 else ""  # e.g. "w4-" for the fourth wave: seeded/<prop>/w4-m1
 OUT = "/verif/seeded"
+WHY_MISSED = json.load(open(os.path.join(OUT, "why_missed.json"))) if os.path.exists(os.path.join(OUT, "why_missed.json")) else {}  # seed -> why its own property does not report it
 
 
 def section(text: str, *keys: str) -> str:
@@ -63,6 +64,8 @@ for name, r in sorted(confirm.items()):
         "detected_by": matrix.get(name, {}).get("detected_by"),
         "detection_details": matrix.get(name, {}).get("details"),
     }
+    if meta["seed"] in WHY_MISSED:
+        meta["why_missed"] = WHY_MISSED[meta["seed"]]
     json.dump(meta, open(os.path.join(dst, "meta.json"), "w"), indent=1)
     kept += 1
 print(f"written {kept}, skipped {skipped}")
